@@ -19,7 +19,7 @@ const monBLS = "TestVerifBLS12381"
 type blsAPI struct {
 	name   string
 	g      *c09ref.BLSGroup
-	set    func(in []byte) (ok bool, comp, unc []byte)
+	set    func(in []byte) (ok bool, ser func() (comp, unc []byte)) // decode; ser re-serialises the decoded value
 	mulGen func(k *big.Int) (comp, unc []byte)
 	hash   func(msg []byte) (comp, unc []byte)
 	equal  func(a, b []byte) bool // both decode and circl says they are the same element
@@ -33,12 +33,12 @@ func blsScalar(k *big.Int) *bls12381.Scalar {
 
 var apiG1 = &blsAPI{
 	name: "G1", g: c09ref.BLSG1,
-	set: func(in []byte) (bool, []byte, []byte) {
+	set: func(in []byte) (bool, func() ([]byte, []byte)) {
 		var p bls12381.G1
 		if err := p.SetBytes(in); err != nil {
-			return false, nil, nil
+			return false, nil
 		}
-		return true, p.BytesCompressed(), p.Bytes()
+		return true, func() ([]byte, []byte) { return p.BytesCompressed(), p.Bytes() }
 	},
 	mulGen: func(k *big.Int) ([]byte, []byte) {
 		var p bls12381.G1
@@ -58,12 +58,12 @@ var apiG1 = &blsAPI{
 
 var apiG2 = &blsAPI{
 	name: "G2", g: c09ref.BLSG2,
-	set: func(in []byte) (bool, []byte, []byte) {
+	set: func(in []byte) (bool, func() ([]byte, []byte)) {
 		var p bls12381.G2
 		if err := p.SetBytes(in); err != nil {
-			return false, nil, nil
+			return false, nil
 		}
-		return true, p.BytesCompressed(), p.Bytes()
+		return true, func() ([]byte, []byte) { return p.BytesCompressed(), p.Bytes() }
 	},
 	mulGen: func(k *big.Int) ([]byte, []byte) {
 		var p bls12381.G2
@@ -119,11 +119,26 @@ func (a *blsAPI) judge(c tc, subOneIn uint64) {
 	lib.Count("presented:" + a.name + ":" + c.class)
 	var ok bool
 	var comp, unc []byte
-	if p := lib.Try(entry, in, func() { ok, comp, unc = a.set(in) }); p != nil {
+	var ser func() ([]byte, []byte)
+	if p := lib.Try(entry, in, func() { ok, ser = a.set(in) }); p != nil {
 		lib.Count("panic-left-to-C10:" + entry)
 		return
 	}
+	if ok {
+		if p := lib.Try(entry+"/reserialise", in, func() { comp, unc = ser() }); p != nil {
+			lib.Count("decoder-accepted:" + entry)
+			viol("accepted-value-panics-on-reserialisation", entry, "", monBLS, "class", c.class, "input", in, "panic", p.Value)
+			return
+		}
+	}
 	v := a.ref(in, false)
+	if v.dec.Why == "form-length-mismatch" {
+		// compressed flag on a string of the uncompressed length (or the reverse): SetBytes reads the
+		// flagged form from the front and tolerates what follows (the repo's TestG1Serial/badLength pins
+		// that down); strings with trailing bytes are not of the exact length of their format: C02 / C10.
+		lib.Count("out-of-scope:trailing-bytes-after-flagged-form:" + a.name)
+		return
+	}
 	if v.dec.Why != "" && v.dec.Why != "not-on-curve" {
 		lib.Count("noncanonical-presented")
 		lib.Count("noncanonical-presented:" + a.name + ":" + v.dec.Why)
@@ -131,7 +146,7 @@ func (a *blsAPI) judge(c tc, subOneIn uint64) {
 	if !ok {
 		lib.Count("decoder-rejected:" + entry)
 		if v.dec.Why == "" {
-			if c.class == "valid" || sampled(in, subOneIn) {
+			if alwaysSub[c.class] || sampled(in, subOneIn) {
 				v = a.ref(in, true)
 				if v.inSub {
 					viol("valid-rejected", entry, "", monBLS, "class", c.class, "input", in)
@@ -188,6 +203,11 @@ func (a *blsAPI) judge(c tc, subOneIn uint64) {
 			"expected", a.g.Encode(v.dec.P, false))
 	}
 }
+
+// alwaysSub lists the classes whose on-curve members always get the reference
+// subgroup test, even when circl refused them.
+var alwaysSub = map[string]bool{"valid": true, "cofactor-torsion-point": true, "valid-plus-torsion": true,
+	"off-subgroup-random-point": true, "order-3-point": true}
 
 // ---- workload
 
@@ -510,7 +530,11 @@ func runBLS(t *testing.T, a *blsAPI, q blsSizes, subOneIn uint64) tcs {
 		if !a.equal(v.comp, v.unc) {
 			viol("serialised-value-not-accepted-or-unequal", entry, "", monBLS, "compressed", v.comp, "uncompressed", v.unc)
 		}
-		ok, comp, unc := a.set(v.comp)
+		ok, ser := a.set(v.comp)
+		var comp, unc []byte
+		if ok {
+			comp, unc = ser()
+		}
 		if !ok || !lib.Eq(comp, v.comp) || !lib.Eq(unc, v.unc) {
 			viol("serialised-value-not-accepted-or-unequal", entry, "", monBLS, "compressed", v.comp)
 		}
@@ -527,7 +551,7 @@ func TestVerifG1(t *testing.T) {
 	if lib.Thorough() {
 		q = blsSizes{rnd: 400, hash: 100, ref: 40, flipC: 160, flipU: 120, offsub: 2000, torsion: 200, random: 6000}
 	}
-	runBLS(t, apiG1, q, 8)
+	runBLS(t, apiG1, q, uint64(lib.Scale(2, 8)))
 }
 
 func TestVerifG2(t *testing.T) {
@@ -535,7 +559,7 @@ func TestVerifG2(t *testing.T) {
 	if lib.Thorough() {
 		q = blsSizes{rnd: 300, hash: 80, ref: 24, flipC: 70, flipU: 60, offsub: 1200, torsion: 100, random: 4000}
 	}
-	runBLS(t, apiG2, q, 16)
+	runBLS(t, apiG2, q, uint64(lib.Scale(4, 16)))
 }
 
 // ---------------------------------------------------------------- BLS keys and signatures
@@ -550,7 +574,7 @@ type pkAPI struct {
 	decode func(in []byte) (unmarshalOK, validateOK bool, remarshal []byte)
 	// keygen returns the public key and a signature on msg
 	keygen func(ikm, msg []byte) (pk, sig []byte)
-	verify func(pk, msg, sig []byte) (pkOK, ok bool)
+	verify func(pk, msg, sig []byte) (pkOK, ok, okAgg bool) // Verify and VerifyAggregate over the single pair
 }
 
 func mkPK[K bls.KeyGroup](name string, a, sa *blsAPI) *pkAPI {
@@ -572,12 +596,12 @@ func mkPK[K bls.KeyGroup](name string, a, sa *blsAPI) *pkAPI {
 			pk, _ := sk.PublicKey().MarshalBinary()
 			return pk, bls.Sign(sk, msg)
 		},
-		verify: func(pkb, msg, sig []byte) (bool, bool) {
+		verify: func(pkb, msg, sig []byte) (bool, bool, bool) {
 			pk := new(bls.PublicKey[K])
 			if err := pk.UnmarshalBinary(pkb); err != nil {
-				return false, false
+				return false, false, false
 			}
-			return true, bls.Verify(pk, msg, sig)
+			return true, bls.Verify(pk, msg, sig), bls.VerifyAggregate([]*bls.PublicKey[K]{pk}, [][]byte{msg}, sig)
 		},
 	}
 }
@@ -595,7 +619,7 @@ func (k *pkAPI) judgeKey(c tc) {
 	v := k.a.ref(in, false)
 	if !(uok && vok) {
 		lib.Count("decoder-rejected:" + entry)
-		if v.dec.Why == "" && !v.dec.P.Inf && (c.class == "valid" || sampled(in, 16)) {
+		if v.dec.Why == "" && !v.dec.P.Inf && (alwaysSub[c.class] || sampled(in, uint64(lib.Scale(4, 16)))) {
 			if v = k.a.ref(in, true); v.inSub {
 				viol("valid-rejected", entry, "", monBLSKeys, "class", c.class, "input", in)
 			}
@@ -639,13 +663,14 @@ func (k *pkAPI) judgeVerify(what string, pk, msg, sig []byte, c tc) {
 	} else {
 		useSig = c.data
 	}
-	var ok bool
-	if p := lib.Try(entry, c.data, func() { _, ok = k.verify(usePK, msg, useSig) }); p != nil {
+	var ok, okV, okA bool
+	if p := lib.Try(entry, c.data, func() { _, okV, okA = k.verify(usePK, msg, useSig) }); p != nil {
 		lib.Count("panic-left-to-C10:" + entry)
 		return
 	}
+	ok = okV || okA
 	if lib.Eq(c.data, orig) {
-		if !ok {
+		if !okV || !okA {
 			viol("valid-rejected", entry, "", monBLSKeys, "pk", pk, "msg", msg, "sig", sig)
 		}
 		lib.Count("verify-honest-accepted")
@@ -671,7 +696,7 @@ func (k *pkAPI) judgeVerify(what string, pk, msg, sig []byte, c tc) {
 	case v.dec.P.Inf:
 		cls = "identity-" + what + "-verifies"
 	}
-	viol(cls, "bls.Verify[key "+k.a.name+"]", what, monBLSKeys, "class", c.class, "reference", v.dec.Why,
+	viol(cls, "bls.Verify[key "+k.a.name+"]", what, monBLSKeys, "class", c.class, "reference", v.dec.Why, "Verify", okV, "VerifyAggregate", okA,
 		"pk", usePK, "msg", msg, "sig", useSig, "honest", orig)
 }
 
